@@ -1,0 +1,242 @@
+//! Verification hooks. Compiled only with the cargo feature `verif-hooks`.
+//!
+//! A process-global, thread-safe event sink plus named counters and failpoints.
+//! Everything here is passive unless one of the environment variables below is
+//! set (or the in-memory sink is switched on by an embedding harness):
+//!
+//! * `AST_GREP_VERIF_LOG=<file>`: append one JSON object per event to `<file>`
+//!   (a single `write(2)` per line on an `O_APPEND` descriptor).
+//! * `AST_GREP_VERIF_DELAYS="site=N,site2=M;seed=S"`: `failpoint(site)` sleeps a
+//!   pseudo-random 0..N microseconds.
+//! * `AST_GREP_VERIF_PRUNE=0`: skip the re-evaluation done by `prune`.
+//!
+//! The sink only takes its own lock and never calls back into ast-grep.
+
+use std::collections::BTreeMap;
+use std::fmt::Write as _;
+use std::io::Write as _;
+use std::sync::atomic::{AtomicBool, AtomicU64, Ordering};
+use std::sync::{Mutex, OnceLock};
+
+static SEQ: AtomicU64 = AtomicU64::new(0);
+static MEM_ON: AtomicBool = AtomicBool::new(false);
+static MEM: Mutex<Vec<String>> = Mutex::new(Vec::new());
+static COUNTERS: Mutex<BTreeMap<String, u64>> = Mutex::new(BTreeMap::new());
+
+fn log_file() -> Option<&'static Mutex<std::fs::File>> {
+  static FILE: OnceLock<Option<Mutex<std::fs::File>>> = OnceLock::new();
+  FILE
+    .get_or_init(|| {
+      let path = std::env::var_os("AST_GREP_VERIF_LOG")?;
+      let f = std::fs::OpenOptions::new()
+        .create(true)
+        .append(true)
+        .open(path)
+        .ok()?;
+      Some(Mutex::new(f))
+    })
+    .as_ref()
+}
+
+/// A value of an event field.
+pub enum V<'a> {
+  S(&'a str),
+  U(u64),
+  I(i64),
+  B(bool),
+}
+
+fn esc(out: &mut String, s: &str) {
+  out.push('"');
+  for c in s.chars() {
+    match c {
+      '"' => out.push_str("\\\""),
+      '\\' => out.push_str("\\\\"),
+      '\n' => out.push_str("\\n"),
+      '\r' => out.push_str("\\r"),
+      '\t' => out.push_str("\\t"),
+      c if (c as u32) < 0x20 => {
+        let _ = write!(out, "\\u{:04x}", c as u32);
+      }
+      c => out.push(c),
+    }
+  }
+  out.push('"');
+}
+
+fn tid() -> u64 {
+  thread_local! {
+    static TID: u64 = {
+      static NEXT: AtomicU64 = AtomicU64::new(1);
+      NEXT.fetch_add(1, Ordering::Relaxed)
+    };
+  }
+  TID.with(|t| *t)
+}
+
+/// Is any sink active?
+pub fn enabled() -> bool {
+  MEM_ON.load(Ordering::Relaxed) || log_file().is_some()
+}
+
+/// Record one event. The sequence number is taken and the line is written
+/// under one lock, so the order of lines in the log is the order of `seq`.
+pub fn emit(ev: &str, fields: &[(&str, V)]) {
+  if !enabled() {
+    return;
+  }
+  let mut line = String::with_capacity(96);
+  let write_body = |line: &mut String, seq: u64| {
+    let _ = write!(line, "{{\"seq\":{},\"tid\":{},\"ev\":", seq, tid());
+    esc(line, ev);
+    for (k, v) in fields {
+      line.push(',');
+      esc(line, k);
+      line.push(':');
+      match v {
+        V::S(s) => esc(line, s),
+        V::U(u) => {
+          let _ = write!(line, "{}", u);
+        }
+        V::I(i) => {
+          let _ = write!(line, "{}", i);
+        }
+        V::B(b) => {
+          let _ = write!(line, "{}", b);
+        }
+      }
+    }
+    line.push_str("}\n");
+  };
+  if let Some(f) = log_file() {
+    let mut f = f.lock().unwrap_or_else(|e| e.into_inner());
+    let seq = SEQ.fetch_add(1, Ordering::SeqCst);
+    write_body(&mut line, seq);
+    let _ = f.write_all(line.as_bytes());
+    if MEM_ON.load(Ordering::Relaxed) {
+      MEM.lock().unwrap_or_else(|e| e.into_inner()).push(line);
+    }
+  } else {
+    let mut mem = MEM.lock().unwrap_or_else(|e| e.into_inner());
+    let seq = SEQ.fetch_add(1, Ordering::SeqCst);
+    write_body(&mut line, seq);
+    mem.push(line);
+  }
+}
+
+/// Switch the in-memory sink on or off (used by an embedding harness).
+pub fn mem_sink(on: bool) {
+  MEM_ON.store(on, Ordering::SeqCst);
+}
+
+/// Take and clear the events of the in-memory sink.
+pub fn mem_take() -> Vec<String> {
+  std::mem::take(&mut *MEM.lock().unwrap_or_else(|e| e.into_inner()))
+}
+
+/// Increase a named counter.
+pub fn count(name: &str, by: u64) {
+  let mut c = COUNTERS.lock().unwrap_or_else(|e| e.into_inner());
+  if let Some(v) = c.get_mut(name) {
+    *v += by;
+  } else {
+    c.insert(name.to_string(), by);
+  }
+}
+
+/// Snapshot of all counters.
+pub fn counters() -> BTreeMap<String, u64> {
+  COUNTERS.lock().unwrap_or_else(|e| e.into_inner()).clone()
+}
+
+/// Emit one `counters` event holding every counter (called at process exit by the CLI).
+pub fn flush_counters() {
+  if !enabled() {
+    return;
+  }
+  for (k, v) in counters() {
+    emit("counter", &[("name", V::S(&k)), ("n", V::U(v))]);
+  }
+}
+
+fn prune_on() -> bool {
+  static ON: OnceLock<bool> = OnceLock::new();
+  *ON.get_or_init(|| {
+    std::env::var("AST_GREP_VERIF_PRUNE")
+      .map(|v| v != "0")
+      .unwrap_or(true)
+  })
+}
+
+/// Called where an acceleration decides to skip work. `would_match` evaluates the
+/// skipped work; if it reports a match the acceleration changed the result, which
+/// is recorded as a `prune_violation` event. The caller's decision is not altered.
+pub fn prune(site: &str, would_match: impl FnOnce() -> bool, detail: impl FnOnce() -> String) {
+  if !prune_on() {
+    return;
+  }
+  count(site, 1);
+  if would_match() {
+    let d = detail();
+    let mut name = String::from(site);
+    name.push_str(".violation");
+    count(&name, 1);
+    emit(
+      "prune_violation",
+      &[("site", V::S(site)), ("detail", V::S(&d))],
+    );
+  }
+}
+
+struct Delays {
+  sites: Vec<(String, u64)>,
+  seed: u64,
+}
+
+fn delays() -> Option<&'static Delays> {
+  static D: OnceLock<Option<Delays>> = OnceLock::new();
+  D.get_or_init(|| {
+    let spec = std::env::var("AST_GREP_VERIF_DELAYS").ok()?;
+    let mut sites = vec![];
+    let mut seed = 1u64;
+    for part in spec.split([';', ',']) {
+      let Some((k, v)) = part.split_once('=') else {
+        continue;
+      };
+      let Ok(n) = v.trim().parse::<u64>() else {
+        continue;
+      };
+      if k.trim() == "seed" {
+        seed = n;
+      } else {
+        sites.push((k.trim().to_string(), n));
+      }
+    }
+    Some(Delays { sites, seed })
+  })
+  .as_ref()
+}
+
+/// Sleep a pseudo-random 0..N microseconds if `site` is configured; no-op otherwise.
+pub fn failpoint(site: &str) {
+  let Some(d) = delays() else {
+    return;
+  };
+  let Some((_, max)) = d.sites.iter().find(|(s, _)| s == site) else {
+    return;
+  };
+  if *max == 0 {
+    return;
+  }
+  static CALLS: AtomicU64 = AtomicU64::new(0);
+  let n = CALLS.fetch_add(1, Ordering::Relaxed);
+  // splitmix64
+  let mut z = d
+    .seed
+    .wrapping_add(n.wrapping_mul(0x9E37_79B9_7F4A_7C15))
+    .wrapping_add(tid() << 32);
+  z = (z ^ (z >> 30)).wrapping_mul(0xBF58_476D_1CE4_E5B9);
+  z = (z ^ (z >> 27)).wrapping_mul(0x94D0_49BB_1331_11EB);
+  z ^= z >> 31;
+  std::thread::sleep(std::time::Duration::from_micros(z % (*max + 1)));
+}
